@@ -431,6 +431,36 @@ fn constval_j<'tcx>(cx: &mut Cx<'tcx>, val: mir::ConstValue, t: Ty<'tcx>) -> Vec
         }
         mir::ConstValue::Indirect { alloc_id, offset } => {
             v.push(("indirect", J::Bool(true)));
+            // a small array of scalars (`const OWS: [char; 2] = [' ', '\t']`): its elements
+            if let ty::Array(et, len) = t.kind() {
+                let esz: usize = match et.kind() {
+                    ty::Char => 4,
+                    ty::Bool => 1,
+                    ty::Uint(u) => u.bit_width().map(|b| (b / 8) as usize).unwrap_or(8),
+                    _ => 0,
+                };
+                if esz > 0 {
+                    if let Some(l) = len.try_to_target_usize(tcx) {
+                        if l <= 64 {
+                            if let Some(b) = read_alloc_bytes(tcx, alloc_id, offset.bytes(), l * esz as u64) {
+                                let mut items = vec![];
+                                for i in 0..(l as usize) {
+                                    let mut x: u128 = 0;
+                                    for k in 0..esz {
+                                        x |= (b[i * esz + k] as u128) << (8 * k);
+                                    }
+                                    if x <= i128::MAX as u128 {
+                                        items.push(J::Num(x as i128));
+                                    }
+                                }
+                                if items.len() == l as usize {
+                                    v.push(("array_ints", J::Arr(items)));
+                                }
+                            }
+                        }
+                    }
+                }
+            }
             // a fat pointer (&[u8] / &str) stored in memory: follow the provenance of the data pointer
             if let ty::Ref(_, inner, _) = t.kind() {
                 let is_str = inner.is_str();
